@@ -725,6 +725,14 @@ THEOREMS = [
     "ProbLogProofs.C01GroundFO.GroundFO_valuation_exists_partial",
 ]
 # the link between the model's program (auxiliary AD-body goals) and the inlined program sent to `Sem`, ground case
+# semantic correctness of the first-order model relative to the first-order completion (IsModelFO); per check its own part
+MODULE_SEM = "ProbLogProofs.Properties.C01GroundFOSem"
+THEOREMS_SEM = {
+    "all": ["ProbLogProofs.C01GroundFO.C01_groundFO_correct_partial", "ProbLogProofs.C01GroundFO.GroundFO_table_sem_partial",
+            "ProbLogProofs.GroundFOSem.unifOK"],
+    "sched": ["ProbLogProofs.C01GroundFO.C03_groundFO_schedule_independent_partial"],
+    "history": ["ProbLogProofs.C01GroundFO.C08_groundFO_history_independent_partial"],
+}
 MODULE_SPEC = "ProbLogProofs.Properties.C01GroundFOSpec"
 THEOREMS_SPEC = [
     "ProbLogProofs.C01GroundFO.toSemRules_eq",
@@ -766,6 +774,7 @@ def phase(ctx, kind, nq, nt):
     """kind: "all" (C01), "sched" (C03), "history" (C08) - as `ground_util.phase`, on programs with variables."""
     from lib import pmap
     ctx.proof_phase(MODULE, _theorems())
+    ctx.proof_phase(MODULE_SEM, THEOREMS_SEM[kind])
     if kind == "all":
         ctx.proof_phase(MODULE_INLINE, THEOREMS_INLINE)
     drv = ctx.driver("Drivers.GroundFO")
